@@ -2,7 +2,7 @@ SPECIFICATION Spec
 CONSTANTS
   MaxDepth = 2
   MaxKids = 2
-  Names = {"block", "call"}
+  Names = {"block", "call", "do"}
 INVARIANT Holds
 CONSTRAINT Emit
 CHECK_DEADLOCK FALSE
